@@ -483,8 +483,28 @@ def constructors(check, prog):
             base = intern(('ite', ('call', 'numpy.isscalar', (G['shape'],), ()),
                            ('list', (G['shape'], G['shape'])),
                            ('call', 'list', (G['shape'],), ())))
-            ok = shp[0] == 'ite' and shp[3] == base and shp[2][0] == 'loop' and \
-                shp[2][3] == base
+            # the extended shape: base followed by the length of every extra
+            # dimension, built by an appending loop or by concatenating a list
+            lens_of = intern(('call', ('attr', G['extra_dims'], 'values'), (), ()))
+
+            def extended(t):
+                if t[0] == 'loop':
+                    st = t[4]
+                    return t[3] == base and t[5] == lens_of and st[0] == 'mut' and \
+                        st[2] == 'append' and len(st[3]) == 1 and \
+                        st[3][0] == ('call', 'len', (('elem', lens_of, t[2]),), ())
+                if t[0] == 'bin' and t[1] == '+' and t[2] == base:
+                    c = t[3]
+                    if c[0] == 'call' and c[1] == 'list' and len(c[2]) == 1:
+                        c = c[2][0]
+                    return c[0] == 'comp' and len(c[3]) == 1 and c[3][0][1] == lens_of \
+                        and c[2] == ('call', 'len', (c[3][0][0],), ())
+                return False
+            given = intern(('cmp', 'is not', G['extra_dims'], NONE))
+            absent = intern(('cmp', 'is', G['extra_dims'], NONE))
+            ok = shp[0] == 'ite' and (
+                (shp[1] == given and shp[3] == base and extended(shp[2])) or
+                (shp[1] == absent and shp[2] == base and extended(shp[3])))
     check.require(ok, 'D3-grid-detectors', 'detector_grid',
                   'zeros of shape (n, n) for a scalar / the given shape, extended by '
                   'the lengths of the extra dimensions, handed to data_grid with the '
